@@ -760,7 +760,7 @@ def r4_8(repo: Repo) -> RuleResult:
 RULES = [r4_1, r4_2, r4_3, r4_4, r4_5, r4_6, r4_7, r4_8]
 
 CLAIM = (
-    "R4.1 every call of a reallocate-and-return accumulator (coo_append) re-binds the result to the l-value it was "
+    "R4.1 every call of a reallocate-and-return accumulator (coo_append) re-binds the result to the l-value it was (a local standing in for a container slot is stored back in the block that loaded it) "
     "called on; R4.2 the de-duplication key col + array_mul*row is injective (array_mul = n_windows*n_unique_tokens + c, "
     "c >= 0; col = context + i*n_unique_tokens) in all four build kernels (symbolic arithmetic); R4.3 worker chunks are "
     "exactly the generated boundary pairs and the boundaries are chained from 0 to len(data); R4.4 attribute-level "
